@@ -21,7 +21,8 @@ from .. import common, scenes, tablecheck
 REQ = ['ceilo', 'dt', 'height', 'type']
 DEFECTS = ['none', 'none', 'notframe', 'empty', 'drop_col', 'dup_row', 'dup_after_coercion', 'zero_nonzero_same',
            'zero_nonzero_other', 'vv_nonvv_same', 'vv_nonvv_other', 'vv_zero_same', 'dtypes', 'extra_cols', 'col_order',
-           'index_dup', 'dup_with_extra_col', 'dup_via_str_coercion', 'dup_with_extra_col', 'neg_height', 'type0_height', 'type1_nan', 'type2_alone', 'type3_alone']
+           'index_dup', 'dup_with_extra_col', 'dup_via_str_coercion', 'dup_with_extra_col', 'neg_height', 'type0_height', 'type1_nan', 'type2_alone', 'type3_alone',
+           'glued_key_legal', 'glued_key_legal']
 
 
 def build(seed, k):
@@ -119,6 +120,18 @@ def build(seed, k):
         elif d == 'neg_height' and n:
             arg = df.copy()
             arg.loc[arg.index[i], ['height', 'type']] = [-50.0, 1] if arg['type'].iloc[i] != 0 else [np.nan, 0]
+        elif d == 'glued_key_legal' and n:
+            # perfectly legal rows on DIFFERENT ceilometers at DIFFERENT times whose name and time stamp, glued together
+            # as text, read the same ('K1'+'15.0' == 'K11'+'5.0'): a non-detection / VV hit next to an ordinary hit
+            base_name = rng.choice(['K', '1', 'CL3', 'ceilo-'])
+            d1, d2 = rng.choice([('1', '5.0'), ('2', '0.0'), ('1', '2.5'), ('10', '0.0')])
+            sep = rng.choice(['', '', '_', ' '])
+            ta, tb = float(d1 + d2), float(d2)
+            odd = rng.choice([(float('nan'), 0), (350.0, -1)])
+            new = [(base_name + sep, ta, odd[0], odd[1]), (base_name + sep + d1, tb, 1200.0, 1)]
+            if rng.random() < 0.5:
+                new = new[::-1]
+            arg = pd.concat([df, scenes.make_frame(new)], ignore_index=True)
         elif d == 'type0_height' and n:
             arg = pd.concat([df, scenes.make_frame([('zz', 12345.0, 800.0, 0)])], ignore_index=True)
         elif d == 'type1_nan' and n:
